@@ -35,7 +35,8 @@ CONSTANTS Cases          \* set of case records explored (see CaseOK)
 VARIABLES case,      \* the case of this behaviour
           pc,        \* control point inside the call
           matrows,   \* row/column indices on which the (masked) matrix may be non-zero
-          ident,     \* indices on which `identity` is one  (= where the ridge is added)
+          ident,     \* indices on which `identity` is one
+          ridged,    \* indices whose diagonal entry received the ridge
           lamk,      \* kind of the largest-eigenvalue estimate: unset|one|pos|zero|nan
           base,      \* what the ridge epsilon is multiplied by: unset|abs|rel_lam|rel_floor|nan
           tries,     \* completed attempts of the Newton retry loop (= metrics.total_retries)
@@ -47,7 +48,7 @@ VARIABLES case,      \* the case of this behaviour
           xzero,     \* returned matrix overwritten by zeros (all-padding override)
           accepted   \* the optimizer's gate would store this root
 
-vars == <<case, pc, matrows, ident, lamk, base, tries, last, kused, kref,
+vars == <<case, pc, matrows, ident, ridged, lamk, base, tries, last, kused, kref,
           figsrc, figcls, xzero, accepted>>
 
 (***************************************************************************)
@@ -154,7 +155,7 @@ Honest(c, d, lamUp, figDown, measUp) ==
 (* Actions                                                                  *)
 (***************************************************************************)
 InitRest ==
-  /\ pc = "call" /\ matrows = {} /\ ident = {}
+  /\ pc = "call" /\ matrows = {} /\ ident = {} /\ ridged = {}
   /\ lamk = "unset" /\ base = "unset" /\ tries = 0 /\ last = "none"
   /\ kused = 0 /\ kref = 0 /\ figsrc = "none" /\ figcls = "none"
   /\ xzero = FALSE /\ accepted = FALSE
@@ -166,13 +167,13 @@ Mask ==
   /\ matrows' = 1..Unpadded(case)
   /\ ident' = 1..Unpadded(case)
   /\ pc' = IF case.method = "lobpcg" THEN "deflate" ELSE "estimate"
-  /\ UNCHANGED <<case, lamk, base, tries, last, kused, kref, figsrc, figcls, xzero, accepted>>
+  /\ UNCHANGED <<case, ridged, lamk, base, tries, last, kused, kref, figsrc, figcls, xzero, accepted>>
 
 \* lobpcg_standard on the masked matrix, top-k directions subtracted down to the k-th eigenvalue
 Deflate ==
   /\ pc = "deflate"
   /\ pc' = "estimate"
-  /\ UNCHANGED <<case, matrows, ident, lamk, base, tries, last, kused, kref, figsrc, figcls,
+  /\ UNCHANGED <<case, matrows, ident, ridged, lamk, base, tries, last, kused, kref, figsrc, figcls,
                  xzero, accepted>>
 
 \* max_ev: 1.0 (absolute), max LOBPCG Ritz value, or power_iteration.  On an all-padding input the
@@ -192,12 +193,14 @@ Estimate(lk, bf) ==
              ELSE IF bf THEN "rel_floor" ELSE "rel_lam"
   /\ pc' = IF case.method = "eigh" THEN "decompose"
            ELSE IF case.n = 1 THEN "size1" ELSE "loop"
-  /\ UNCHANGED <<case, matrows, ident, tries, last, kused, kref, figsrc, figcls, xzero, accepted>>
+  /\ UNCHANGED <<case, matrows, ident, ridged, tries, last, kused, kref, figsrc, figcls, xzero, accepted>>
 
-\* matrix_size == 1: closed form, no retry loop, the true residual is reported
+\* matrix_size == 1: closed form, no retry loop, the true residual is reported.
+\* `damped_matrix = matrix + ridge_epsilon`: the ridge is added WITHOUT the masked identity
 Size1 ==
   /\ pc = "size1"
   /\ tries' = 0 /\ kused' = 0 /\ kref' = 0 /\ last' = "none"
+  /\ ridged' = 1..case.n
   /\ figsrc' = "size1_residual"
   /\ pc' = "report"
   /\ UNCHANGED <<case, matrows, ident, lamk, base, figcls, xzero, accepted>>
@@ -208,6 +211,7 @@ Attempt(cls) ==
   /\ tries < MaxTries /\ (tries = 0 \/ last = "big")         \* _outer_iter_condition_fn
   /\ matrows = {} => cls = "nan"                              \* z = (1+p) / (2 * 0)
   /\ tries' = tries + 1 /\ kused' = tries /\ last' = cls
+  /\ ridged' = ident                                          \* + ridge * 10**i * identity
   /\ UNCHANGED <<case, pc, matrows, ident, lamk, base, kref, figsrc, figcls, xzero, accepted>>
 
 ExitLoop ==
@@ -216,7 +220,7 @@ ExitLoop ==
   /\ IF case.method = "lobpcg"
      THEN pc' = "redeflate" /\ UNCHANGED <<figsrc, kref>>
      ELSE pc' = "report" /\ figsrc' = "tracked_error" /\ kref' = kused
-  /\ UNCHANGED <<case, matrows, ident, lamk, base, tries, last, kused, figcls, xzero, accepted>>
+  /\ UNCHANGED <<case, matrows, ident, ridged, lamk, base, tries, last, kused, figcls, xzero, accepted>>
 
 \* LOBPCG variant: the removed directions are put back with _pth_root_difference; the figure
 \* is recomputed against original_matrix + ridge * identity  (NO escalation factor)
@@ -224,12 +228,13 @@ Redeflate ==
   /\ pc = "redeflate"
   /\ figsrc' = "unconditioned_residual" /\ kref' = 0
   /\ pc' = "report"
-  /\ UNCHANGED <<case, matrows, ident, lamk, base, tries, last, kused, figcls, xzero, accepted>>
+  /\ UNCHANGED <<case, matrows, ident, ridged, lamk, base, tries, last, kused, figcls, xzero, accepted>>
 
 \* eigh of matrix + ridge * identity, eigenvalues of padding zeroed, the rest clipped at ridge
 Decompose ==
   /\ pc = "decompose"
   /\ tries' = 0 /\ kused' = 0 /\ kref' = 0 /\ last' = "none"
+  /\ ridged' = ident                                          \* matrix + ridge * identity
   /\ figsrc' = "eigendecomposition_residual"
   /\ pc' = "report"
   /\ UNCHANGED <<case, matrows, ident, lamk, base, figcls, xzero, accepted>>
@@ -244,7 +249,7 @@ Report(fc) ==
        /\ last = "big" => fc \in {"below", "atabove", "inf"}
   /\ figcls' = fc
   /\ pc' = "override"
-  /\ UNCHANGED <<case, matrows, ident, lamk, base, tries, last, kused, kref, figsrc, xzero, accepted>>
+  /\ UNCHANGED <<case, matrows, ident, ridged, lamk, base, tries, last, kused, kref, figsrc, xzero, accepted>>
 
 \* `jnp.where(padding_start == 0, 0.0, ..)` on result and error (only if padding_start is given)
 Override ==
@@ -252,14 +257,14 @@ Override ==
   /\ IF AllPad(case) THEN xzero' = TRUE /\ figcls' = "zero"
      ELSE UNCHANGED <<xzero, figcls>>
   /\ pc' = "gate"
-  /\ UNCHANGED <<case, matrows, ident, lamk, base, tries, last, kused, kref, figsrc, accepted>>
+  /\ UNCHANGED <<case, matrows, ident, ridged, lamk, base, tries, last, kused, kref, figsrc, accepted>>
 
 \* the caller's gate: error < threshold (threshold > 0)
 Gate ==
   /\ pc = "gate"
   /\ accepted' = (figcls \in {"below", "zero"})
   /\ pc' = "done"
-  /\ UNCHANGED <<case, matrows, ident, lamk, base, tries, last, kused, kref, figsrc, figcls, xzero>>
+  /\ UNCHANGED <<case, matrows, ident, ridged, lamk, base, tries, last, kused, kref, figsrc, figcls, xzero>>
 
 Next == \/ Mask \/ Deflate \/ Size1 \/ ExitLoop \/ Redeflate \/ Decompose \/ Override \/ Gate
         \/ \E lk \in {"one", "pos", "zero", "nan"}, bf \in BOOLEAN : Estimate(lk, bf)
@@ -275,7 +280,7 @@ Spec == Init /\ [][Next]_vars
 RidgeUsed == RidgeSym(base, kused)
 RidgeRef  == RidgeSym(base, kref)
 \* X = Q diag( Root(p, a_i + d) ) Q^T on ident, exactly zero elsewhere
-Denotes == [root |-> case.p, exps |-> case.exps, scale |-> case.c, on |-> ident,
+Denotes == [root |-> case.p, exps |-> case.exps, scale |-> case.c, on |-> ridged,
             ridge |-> RidgeUsed, clip |-> case.method = "eigh", zero |-> xzero]
 
 (***************************************************************************)
@@ -287,7 +292,7 @@ TypeOK ==
   /\ CaseOK(case)
   /\ pc \in {"call", "deflate", "estimate", "size1", "loop", "decompose", "redeflate",
              "report", "override", "gate", "done"}
-  /\ matrows \subseteq 1..case.n /\ ident \subseteq 1..case.n
+  /\ matrows \subseteq 1..case.n /\ ident \subseteq 1..case.n /\ ridged \subseteq 1..case.n
   /\ lamk \in {"unset", "one", "pos", "zero", "nan"}
   /\ base \in {"unset", "abs", "rel_lam", "rel_floor", "nan"}
   /\ tries \in 0..MaxTries /\ last \in ErrCls \cup {"none"}
@@ -308,7 +313,11 @@ BaseConsistent   == pc \notin {"call", "deflate", "estimate"} =>
                       /\ case.rel = (base \in {"rel_lam", "rel_floor", "nan"})
                       /\ base = "nan" => case.rel /\ AllPad(case)
                       /\ LamMaxBelowFloor(case) /\ case.rel /\ ~AllPad(case) => base = "rel_floor"
-PaddingNoRidge   == case.ps # -1 => ident \cap ((case.ps + 1)..case.n) = {}
+IdentityMasked   == case.ps # -1 => ident \cap ((case.ps + 1)..case.n) = {}
+\* padding never receives ridge - except in the 1x1 branch on an all-padding input, where the
+\* ridge is added without the identity and the result is overridden by zeros anyway
+PaddingNoRidge   == case.ps # -1 /\ ~AllPad(case) => ridged \cap ((case.ps + 1)..case.n) = {}
+RidgeOnlyIfOverridden == pc = "done" /\ case.ps # -1 /\ ridged \cap ((case.ps + 1)..case.n) # {} => xzero
 MaskAgrees       == pc # "call" => matrows = ident
 AcceptedFinite   == accepted => figcls \in {"below", "zero"}
 AllPadZero       == pc \in {"gate", "done"} /\ AllPad(case) => xzero /\ figcls = "zero"
